@@ -40,6 +40,11 @@ def Op.Allowed (P : Params Path Content Hash Entry Excl Version) :
       (∃ es, c = .doc P.cur es ∧ HonestRows P es)
   | _ => True
 
+/-- the operation is a scan -/
+def Op.isScan : Op Path Content Hash Entry Excl Version → Bool
+  | .scan => true
+  | _ => false
+
 /-- the file-system part of the state is a map: no path occurs twice -/
 def FsWF (s : State Path Content Hash Entry Excl Version) : Prop :=
   (s.fs.map (·.1)).Nodup
@@ -53,23 +58,28 @@ def Op.Fault (P : Params Path Content Hash Entry Excl Version) :
   | .removeMarkers => True
   | _ => False
 
-/-- The contract that ties the abstract cache file to bytes.  `readCache` is what
-`_read_cached_report`/`ReportReader` make of the bytes of an existing file, `writeReport` is
-`ReportWriter(report).to_json()` encoded as UTF-8.  (a) and (b) are the statements of C08 /
-`C10_truncation` about the JSON model; (c) says that the only cuts that do not matter remove
-trailing whitespace.  All three are checked on the real reader and writer at every byte offset
-by the correspondence run of C10. -/
+/-- The contract that ties the abstract cache file to bytes, for the reports in `Good` (the
+reports a scan can write: the real writer is not injective on ALL row lists - duplicate keys,
+strings with a surrogate pair, rows that hold an exception - so the contract must not quantify
+over all of them).  `readCache` is what `_read_cached_report`/`ReportReader` make of the bytes of
+an existing file, `writeReport` is `ReportWriter(report).to_json()` encoded as UTF-8.  (a) and (b)
+are the statements of C08 / `C10_truncation` about the JSON model; (c) says that the only cuts
+that do not matter remove trailing whitespace.  The instance for the real reader and writer
+(`Model/Pipeline.lean`) with `Good` = "written by a scan" is `C10real.real_contract`; all three
+clauses are also checked on the real reader and writer at every byte offset by the
+correspondence run of C10. -/
 structure ByteContract (P : Params Path Content Hash Entry Excl Version) (Byte : Type)
     (isWs : Byte → Bool)
     (readCache : List Byte → CacheFile Path Hash Entry Version)
-    (writeReport : Report Path Hash Entry → List Byte) : Prop where
+    (writeReport : Report Path Hash Entry → List Byte)
+    (Good : Report Path Hash Entry → Prop) : Prop where
   /-- (a) reading back a written report gives that report, at the current version -/
-  roundtrip : ∀ r, readCache (writeReport r) = .doc P.cur r
+  roundtrip : ∀ r, Good r → readCache (writeReport r) = .doc P.cur r
   /-- (b) a prefix that lacks a non-whitespace byte is unreadable -/
-  prefix_junk : ∀ r p, p <+: writeReport r →
+  prefix_junk : ∀ r p, Good r → p <+: writeReport r →
     (∃ b ∈ (writeReport r).drop p.length, isWs b = false) → readCache p = .junk .unreadable
   /-- (c) a prefix that lacks only whitespace reads like the whole -/
-  ws_cut : ∀ r p, p <+: writeReport r →
+  ws_cut : ∀ r p, Good r → p <+: writeReport r →
     (∀ b ∈ (writeReport r).drop p.length, isWs b = true) → readCache p = readCache (writeReport r)
 
 end
